@@ -41,7 +41,7 @@ ASSUMPTIONS = ["ChaCha20-Poly1305 in ipv8_rust_tunnels is trusted (the oracle pe
 REACH = ["delivered_forward", "delivered_backward", "layer_checked_forward", "layer_checked_backward", "hops:1", "hops:2",
          "hops:3", "fault:flip", "fault:cid", "fault:splice", "fault:inject", "fault:flag", "fault:plain_data", "tampered_dropped",
          "speedtest_ok", "e2e_linked", "e2e_delivered", "e2e_reader_checked", "sent_from_ready_callback", "plain_reader_checked",
-         "e2e_ipv8_shaped_payload", "fault:reflect", "outside_answer_during_removal_grace_period", "nested_data_message_from_outside"]
+         "e2e_ipv8_shaped_payload", "fault:reflect", "outside_answer_during_removal_grace_period", "nested_data_message_from_outside", "fault:rp_inject_at_link"]
 
 SIZES = [2, 3, 10, 22, 23, 24, 64, 100, 279, 500, 1000, 1399, 1400]
 
@@ -68,6 +68,11 @@ def cases(tier: str, base_seed: int):  # noqa: ANN201
         n += 1
         yield {"kind": "e2e", "seed": base_seed + n, "knobs": {"lat_jit": 0.0}, "sizes": [64, 279, 1000], "faults": [],
                "send_in_callback": k % 2 == 0, "shape": ("bt", "ipv8", "own_prefix")[k % 3]}
+    # the rendezvous point forges data into both halves right after linking them, before any end-to-end cell has travelled
+    for k in range(2 if tier == "quick" else 6):
+        n += 1
+        yield {"kind": "e2e", "seed": base_seed + n, "knobs": {"lat_jit": 0.0}, "sizes": [64, 279], "send_in_callback": False,
+               "shape": ("bt", "ipv8")[k % 2], "faults": [{"kind": "rp_inject_at_link", "cell": 0, "pos": 0.5, "mask": 1, "mode": "extra"}]}
     # the rendezvous point (which holds hop keys, not the e2e keys) reflects relayed cells into the half they came from
     for k in range(2 if tier == "quick" else 8):
         n += 1
@@ -80,7 +85,7 @@ def cases(tier: str, base_seed: int):  # noqa: ANN201
         if i % 6 == 5:
             fl = []
             for _ in range(rng.choice([0, 0, 2, 6])):
-                fl.append({"kind": rng.choice(["flip", "flip", "flag", "cid", "inject", "reflect"]), "cell": rng.randrange(0, 40),
+                fl.append({"kind": rng.choice(["flip", "flip", "flag", "cid", "inject", "reflect", "rp_inject_at_link"]), "cell": rng.randrange(0, 40),
                            "pos": rng.random(), "mask": 1 << rng.randrange(8), "mode": rng.choice(["alter", "extra"])})
             yield {"kind": "e2e", "seed": seed, "knobs": {"lat_jit": rng.choice([0.0, 0.02]), "timer_jitter": 0.0},
                    "sizes": [rng.randrange(20, 1300) for _ in range(rng.choice([1, 3, 6]))], "faults": fl,
@@ -278,8 +283,39 @@ def execute_e2e(case: dict) -> dict:  # noqa: C901, PLR0915
             sent[payload] = (marker, direction)
             return payload
 
+        def rp_inject() -> None:
+            """The rendezvous point, right after it linked the two halves and before any end-to-end cell has travelled: a made-up data
+            message into each half, under its own legitimate hop layer only (it does not hold the end-to-end keys)."""
+            from ipv8.messaging.anonymization.payload import CellPayload
+            from ipv8.messaging.serialization import Serializer
+            ser = Serializer()
+            for node in tw.nodes:
+                ce = node.ov.crypto_endpoint
+                rz = {cid: r for cid, r in ce.relays.items() if r.rendezvous_relay}
+                for xid, nxt in rz.items():
+                    yid = nxt.circuit_id
+                    if yid not in rz:
+                        continue
+                    evil = b"d" + b"RPFORGED%08x" % yid + b"e"
+                    plain = b"\x01" + ser.pack("address", ("0.0.0.0", 0)) + ser.pack("address", ("6.6.6.6", 66)) + evil
+                    cell = CellPayload(yid, plain, False, False)
+                    try:
+                        ce.encrypt_cell(cell, 1, rz[yid].hop)
+                    except Exception:  # noqa: BLE001, S112
+                        continue
+                    crafting["on"] = True
+                    try:
+                        node.call(ce.endpoint.send, nxt.hop.address, cell.to_bin(ce.prefix))
+                    finally:
+                        crafting["on"] = False
+                    world.probe("fault:rp_inject_at_link")
+                    c.nontrivial("rp_inject_at_link")
+
         def d_cb(addr) -> None:  # noqa: ANN001
             linked["d"] = addr
+            if any(f["kind"] == "rp_inject_at_link" for f in faults):
+                c.loop.call_later(0.001, rp_inject)
+                c.loop.call_later(0.05, rp_inject)
             if case.get("send_in_callback") and "p" not in first:
                 # an application that starts talking from inside its "circuit is ready" callback
                 state["phase"] = "data"
